@@ -180,7 +180,7 @@ pub fn orders_for(universe: &[String], tier: Tier, seed: u64) -> (Vec<biscuit_au
     let n = universe.len();
     let mk = |perm: &[usize]| OrderMode::Ranked(universe.iter().enumerate().map(|(i, k)| (k.clone(), perm[i] as i64)).collect());
     let mut out = vec![];
-    if n <= tier.pick(6, 7) {
+    if n <= tier.pick(7, 8) {
         for p in permutations(n) {
             out.push(mk(&p));
         }
@@ -221,7 +221,7 @@ pub fn orders_for(universe: &[String], tier: Tier, seed: u64) -> (Vec<biscuit_au
             out.push(mk(&r));
         }
     }
-    for s in 0..tier.pick(64, 512) {
+    for s in 0..tier.pick(512, 2048) {
         out.push(OrderMode::Seeded(seed.wrapping_add(s as u64 * 104729 + 17)));
     }
     (out, false)
